@@ -306,7 +306,7 @@ func Drive(cfg *Config, fn RunFn) int {
 		if cfg.Opts["survey"] == "1" {
 			// survey mode (development aid): count violation classes instead of stopping
 			key := out.V.Class
-			for _, tk := range []string{"pacer", "fmt", "explain"} {
+			for _, tk := range []string{"pacer", "fmt", "explain", "when", "q", "shape", "empty"} {
 				if tv, ok := out.V.Tags[tk]; ok {
 					key += " " + tk + "=" + tv
 				}
